@@ -1251,10 +1251,10 @@ impl SubRule {
                                 } else {
                                     res_word.syllables.last_mut().unwrap().segments.push_back(*seg);
                                     if let Some(m) = mods {
-                                        let lc = res_word.apply_seg_mods(&self.alphas, m, pos, state.position)?;
-                                        if lc > 0 {
-                                            pos.seg_index += lc.unsigned_abs() as usize;
-                                        }
+                                        // `pos` is past the end of the word, the segment went to the end of the last syllable
+                                        let last_syll = res_word.syllables.len() - 1;
+                                        let seg_pos = SegPos::new(last_syll, res_word.syllables[last_syll].segments.len() - 1);
+                                        res_word.apply_seg_mods(&self.alphas, m, seg_pos, state.position)?;
                                     } 
                                 };
                                 pos.increment(&res_word);
@@ -1964,11 +1964,15 @@ impl SubRule {
                                         res_word.syllables[pos.syll_index].segments.insert(pos.seg_index, *seg);
                                     } else if let Some(syll) = res_word.syllables.get_mut(pos.syll_index) { 
                                         if pos.seg_index >= syll.segments.len() {
+                                            // (the modifiers below must find the segment where it went)
+                                            pos.seg_index = syll.segments.len();
                                             syll.segments.push_back(*seg);
                                         } else {
                                             syll.segments.insert(pos.seg_index, *seg);
                                         }
                                     } else {
+                                        pos.syll_index = res_word.syllables.len() - 1;
+                                        pos.seg_index = res_word.syllables[pos.syll_index].segments.len();
                                         res_word.syllables.last_mut().unwrap().segments.push_back(*seg);
                                     }
                                     if let Some(m) = mods {
